@@ -45,6 +45,9 @@ def _go_build_tagged(ctx, moddir, pkg, outname, tags='verif', race=False):
     tag c19boot (first-boot crash points); on other trees those ops are not generated."""
     if outname == 'c19' and tags and os.path.exists(os.path.join(ctx.repo, 'src', 'core', 'verif_c19_boot.go')):
         tags = tags + ',c19boot'
+    hookf = os.path.join(ctx.repo, 'src', 'middleware', 'db', 'verif_c19_hook.go')
+    if outname == 'c19' and tags and os.path.exists(hookf) and 'VerifWriteFault' in open(hookf).read():
+        tags = tags + ',c19fault'
     return _go_build(ctx, moddir, pkg, outname, tags=tags, race=race)
 
 
@@ -59,6 +62,27 @@ def gen(ctx):
         return dict(ok=False, error='c19facts failed: ' + (se or so)[-800:])
     changed = vlib.write_if_changed(os.path.join(vlib.LEAN, 'Rangers', 'Generated', 'GroupChainFacts.lean'), so)
     return dict(ok=True, changed=changed, facts=so.count('\n  "'))
+
+
+def _side_viols(c, ctx):
+    """Violations the harness appended (and synced) to <ops>.viols the moment it found them — they
+    survive a later crash / hang / time-out of the harness process."""
+    p = os.path.join(ctx.work, 'c19.ops.viols')
+    vs = []
+    if os.path.exists(p):
+        for line in open(p, errors='replace'):
+            line = line.strip()
+            if line:
+                try:
+                    vs.append(json.loads(line))
+                except Exception:
+                    pass
+    stats = c.get('stats') if isinstance(c.get('stats'), dict) else {}
+    seen = set(v['key'] for v in vs)
+    for v in (stats or {}).get('viols') or []:
+        if v['key'] not in seen:
+            vs.append(v)
+    return _viols(dict(viols=vs))
 
 
 def _viols(stats):
@@ -82,12 +106,12 @@ def correspond(ctx):
             c = vlib.correspond(ctx, 'c19', 'C19', ['mode=corr', 'seqs=100', 'maxops=30', 'depth=5', 'part=%d/%d' % (i, parts)],
                                 timeout=1200)
             c['name'] = 'groupchain-part%d' % i
-            c['violations'] = _viols(c.get('stats') if isinstance(c.get('stats'), dict) else None)
+            c['violations'] = _side_viols(c, ctx)
             res.append(c)
     else:
         c = vlib.correspond(ctx, 'c19', 'C19', ['mode=corr', 'seqs=60', 'maxops=30', 'depth=3'], timeout=300)
         c['name'] = 'groupchain'
-        c['violations'] = _viols(c.get('stats') if isinstance(c.get('stats'), dict) else None)
+        c['violations'] = _side_viols(c, ctx)
         res.append(c)
     for c in res:
         if isinstance(c.get('stats'), dict):
